@@ -108,8 +108,9 @@ def _spec(rng, kind):
 
 # ------------------------------------------------------------------------------------- generator
 
-# verifPoints of an uninterrupted PUT: (Compare: stat [+ getFunc open, read], then Touch 4 / WriteBlock 6)
-PUT_POINTS = {"absent": (1, 6), "corrupt": (3, 6), "intact": (3, 4), "stored": (3, 4)}
+# verifPoints of an uninterrupted PUT: (Compare: stat [+ getFunc open, read], then Touch 4 / WriteBlock 7,
+# or 9 when it replaces an existing copy: open + flock + deferred unlock before the rename)
+PUT_POINTS = {"absent": (1, 7), "corrupt": (3, 9), "intact": (3, 4), "stored": (3, 4)}
 
 
 def _chunks(size, chunk):
@@ -203,7 +204,7 @@ def _wb_enumeration(rng, big_kinds, exhaustive):
             cases.append(f"hist {pre}wb:{b}:{chunk}:x{j}:0:run")
         for j in pick(list(range(n + 1)), 2):
             cases.append(f"hist {pre}wb:{b}:{chunk}:e{j}:0:{rng.choice(['run', 'run', 'k3', 'k4'])}")
-        for i in pick(list(range(7)), 2):
+        for i in pick(list(range(10)), 2):
             cases.append(f"hist {pre}wb:{b}:{chunk}:eof:0:k{i}")
         for _ in range(4 if exhaustive else 1):
             limit = rng.choice([1, max(1, size // 2), max(1, size - 1), size, size + 1, chunk, 2 * chunk, rng.randint(1, size + 1)])
@@ -244,7 +245,7 @@ def _random_history(rng, tier):
         r = rng.random()
         last = k == n - 1
         if r < 0.25:
-            m = _mode(rng, 9, cancel=True)
+            m = _mode(rng, 12, cancel=True)
             if size > 0 and rng.random() < 0.15:
                 chunk = min(32768, max(1, (size + 5) // 6, rng.choice([1, 4096, 32768])))
                 nch = _chunks(size, chunk)
@@ -260,13 +261,13 @@ def _random_history(rng, tier):
             nch = (size + chunk - 1) // chunk
             rd = rng.choice(["eof", "eof", f"e{rng.randint(0, nch)}", f"x{rng.randint(0, nch)}"])
             limit = rng.choice([0, 0, 0, rng.randint(1, size + 1)])
-            ops.append(f"wb:{b}:{chunk}:{rd}:{limit}:{_mode(rng, 6)}")
+            ops.append(f"wb:{b}:{chunk}:{rd}:{limit}:{_mode(rng, 9)}")
         elif r < 0.45:
             ops.append(f"touch:{b}:{_mode(rng, 4)}")
         elif r < 0.63:
             ops.append(f"del:{b}:{rng.choice(['1', '1', '1', '0'])}:{_mode(rng, 5)}")
         elif r < 0.75:
-            ops.append(f"untrash:{b}:{_mode(rng, 2)}")
+            ops.append(f"untrash:{b}:{_mode(rng, 3)}")
         elif r < 0.83:
             ops.append(f"empty:{_mode(rng, 2)}")
         elif r < 0.95:
@@ -484,7 +485,7 @@ def neighbours(case, rng):
         for o in ops:
             g = o.split(":")
             if g[0] not in ("tick", "seed", "full", "put2") and rng.random() < 0.6:
-                g[-1] = rng.choice(["run"] + [f"k{i}" for i in range(10)] + ([f"c{i}" for i in range(10)] + [f"m{j}x{c}" for j in range(3) for c in (1, 4096)] if g[0] == "put" else []))
+                g[-1] = rng.choice(["run"] + [f"k{i}" for i in range(13)] + ([f"c{i}" for i in range(13)] + [f"m{j}x{c}" for j in range(3) for c in (1, 4096)] if g[0] == "put" else []))
             if g[0] == "wb" and rng.random() < 0.4:
                 size = int(g[1].split(".")[0])
                 chunk = int(g[2])
@@ -508,7 +509,7 @@ def neighbours(case, rng):
         g = o.split(":")
         if g[0] == "put":
             for pre in ("", f"seed:{g[1]}:intact;", f"put:{g[1]}:run;", f"seed:{g[1]}:corrupt;"):
-                for m in ["run"] + [f"k{i}" for i in range(10)] + [f"c{i}" for i in range(10)]:
+                for m in ["run"] + [f"k{i}" for i in range(13)] + [f"c{i}" for i in range(13)]:
                     out.append(f"hist {pre}put:{g[1]}:{m}")
             break
     return out
